@@ -1031,7 +1031,89 @@ def c17_21(ctx):
 
 
 
+def c17_22(ctx):
+    """the partial Merkle tree walk, evaluated on honest BIP37 proofs built by the rule's own encoder (pairing hash a free constructor): every
+    match subset of every tree with 1..6 leaves, and {one, first+last, alternate, all} matches for 7..13, 20, 21, 36 and 100 leaves -- trees
+    whose odd levels duplicate their last node have MORE than 2*total-1 nodes, the dense proofs among them use every one.  populate_tree must
+    consume the proof without error, rebuild Bitcoin's root and collect exactly the matched ids in order"""
+    import itertools
+    from sa.cells import Evaluator, Obj, Raised, Undecided
+    spec = "merkleblock:MerkleTree.populate_tree"
+    mod, fn = rl.get(ctx, spec)
+
+    def H(a, b):
+        return ("H", a, b)
+
+    def width(total, height):
+        return (total + (1 << height) - 1) >> height
+
+    def node(leaves, height, pos):
+        if height == 0:
+            return leaves[pos]
+        left = node(leaves, height - 1, pos * 2)
+        right = node(leaves, height - 1, pos * 2 + 1) if pos * 2 + 1 < width(len(leaves), height - 1) else left
+        return H(left, right)
+
+    def build(leaves, match):
+        total = len(leaves)
+        height = (total - 1).bit_length()
+        bits, hashes = [], []
+
+        def rec(h, pos):
+            parent = any(match[i] for i in range(pos << h, min((pos + 1) << h, total)))
+            bits.append(1 if parent else 0)
+            if h == 0 or not parent:
+                hashes.append(node(leaves, h, pos))
+            else:
+                rec(h - 1, pos * 2)
+                if pos * 2 + 1 < width(total, h - 1):
+                    rec(h - 1, pos * 2 + 1)
+        rec(height, 0)
+        return bits + [0] * (-len(bits) % 8), hashes, node(leaves, height, 0)
+
+    def opaque(name, args, kw):
+        if name == "merkle_parent":
+            return H(args[0], args[1])
+        return NotImplemented
+    cases = []
+    for total in range(1, 7):
+        for match in itertools.product((False, True), repeat=total):
+            cases.append((total, list(match)))
+    for total in (7, 8, 9, 10, 11, 12, 13, 20, 21, 36, 100):
+        for m_ in ([i == 0 for i in range(total)], [i in (0, total - 1) for i in range(total)], [i % 2 == 0 for i in range(total)], [True] * total, [False] * total):
+            cases.append((total, m_))
+    n = 0
+    try:
+        for total, match in cases:
+            n += 1
+            leaves = [bytes([i & 255, i >> 8]) + bytes(30) for i in range(total)]
+            bits, hashes, root = build(leaves, match)
+            ev = Evaluator(ctx.repo, opaque=opaque, max_steps=4000000)
+            tree = Obj("merkleblock", "MerkleTree", {})
+            label = "%d leaves, %s matched" % (total, "all" if all(match) else ("none" if not any(match) else "leaves %s" % [i for i, m_ in enumerate(match) if m_][:8]))
+            try:
+                ev.call("merkleblock:MerkleTree.__init__", [total], self_obj=tree)
+                ev.call(spec, [list(bits), list(hashes)], self_obj=tree)
+                got_root = ev.call("merkleblock:MerkleTree.root", [], self_obj=tree)
+            except Raised as x:
+                return [ctx.bad(spec, "an honest BIP37 proof (%s; %d flag bits, %d hashes) raises %s instead of validating" % (label, len(bits), len(hashes), x.name), fn, mod,
+                                key="pmt-cells")]
+            if got_root != root:
+                return [ctx.bad(spec, "an honest BIP37 proof (%s) is rebuilt to a root other than Bitcoin's Merkle root" % label, fn, mod, key="pmt-cells")]
+            want_ids = [leaves[i][::-1] for i, m_ in enumerate(match) if m_]
+            if tree.attrs.get("proved_txs") != want_ids:
+                return [ctx.bad(spec, "an honest BIP37 proof (%s) yields %d ids, not exactly the matched ones in order" % (label, len(tree.attrs.get("proved_txs") or [])), fn, mod,
+                                key="pmt-cells")]
+    except Undecided as u:
+        return [ctx.err(spec, "partial Merkle tree walk not evaluable: %s" % u, fn, mod)]
+    ctx.count("cells", n)
+    return [ctx.ok(spec, "%d honest proofs (all subsets for 1..6 leaves; sparse, alternate and dense for 7..13, 20, 21, 36, 100) rebuild the root and yield the matched ids" % n, fn, mod,
+                   key="pmt-cells")]
+
+
+
 OBLIGATIONS = [
+    ("C17.22", "CELLS partial merkle tree", c17_22),
     ("C17.21", "CELLS invalid compact target", c17_21),
     ("C17.20", "CELLS GetCompact", c17_20),
     ("C17.18", "CELLS difficulty (bounded)", c17_18),
